@@ -38,6 +38,7 @@ const (
 	itUnbound     = 5 // pod update / resync whose object still has no nodeName (Flag: same resourceVersion)
 	itRemoveNode  = 7 // node deleted (Task = node id)
 	itFlow        = 9 // agent stream: execute the queued binds (pre-binders, Binder.Bind); Fails = tasks whose PreBind fails
+	itBatch       = 10 // agent stream: execute the queued binds as ONE batch (BATCH_BIND_NUM > 1); Fails = tasks whose PreBind fails, BindFails = tasks whose Binding the binder reports failed
 	itBound       = 6 // the update that shows the pod bound to the node the cache bound it to (delivered only if the cache holds it as Binding)
 )
 
@@ -49,6 +50,7 @@ type item struct {
 	Pod  sched.TaskSpec
 	Flag bool
 	Fails []int64
+	BindFails []int64
 }
 
 func (b bindCase) hasEvents() bool {
@@ -89,6 +91,11 @@ func (b bindCase) enc() []int64 {
 		case itFlow:
 			out = append(out, int64(len(it.Fails)))
 			out = append(out, it.Fails...)
+		case itBatch:
+			out = append(out, int64(len(it.Fails)))
+			out = append(out, it.Fails...)
+			out = append(out, int64(len(it.BindFails)))
+			out = append(out, it.BindFails...)
 		case itPodAdd:
 			t := it.Pod
 			out = append(out, sched.EpsUnits, t.ID, t.Job, t.Role, t.Prio, t.CPU, t.Mem, t.GPU, t.Status, t.Node, vh.B(t.Preemptable))
@@ -129,6 +136,9 @@ func decBind(in []int64) bindCase {
 			it.Flag = r.Bool()
 		case itFlow:
 			it.Fails = r.Ints()
+		case itBatch:
+			it.Fails = r.Ints()
+			it.BindFails = r.Ints()
 		case itPodAdd:
 			_ = r.Next()
 			it.Pod = sched.TaskSpec{ID: r.Next(), Job: r.Next(), Role: r.Next(), Prio: r.Next(), CPU: r.Next(), Mem: r.Next(),
@@ -294,6 +304,13 @@ func touchedPod(old *v1.Pod, newVersion bool) *v1.Pod {
 // in no delivered pod object).  Law 112 counts these reservations together with what the node holds.
 func reservedBy(b bindCase, order []int, errs []error) map[int64]int64 {
 	res := map[int64]int64{}
+	// the pods the case starts with on a node are there -- running or terminating -- until their own
+	// delete events: a cache that loses one of them (node removed and re-added) must not go unnoticed
+	for _, t := range b.Tasks {
+		if t.Node != 0 && t.Status != sched.SSucceeded && t.Status != sched.SFailed && t.Status != sched.SPending {
+			res[t.ID] = t.Node
+		}
+	}
 	for _, i := range order {
 		it := b.Items[i]
 		switch it.Kind {
@@ -588,6 +605,7 @@ func runBindWith(in []int64, initFam bool) ([]int64, []int64) {
 	lastLaw = append(replay.finalSpecs().enc(), held...)
 	lastSig = ""
 	lastLawExcused = nil
+	lastBatchLaw = nil
 	if initFam {
 		got = got[:1+len(order)] // admission results only
 	}
@@ -602,6 +620,7 @@ func runBindWith(in []int64, initFam bool) ([]int64, []int64) {
 var lastLaw []int64
 var lastSig string
 var lastLawExcused []int64
+var lastBatchLaw []int64 // law 117: per executed batch, the fault script and, per context, on-ledger before / after
 
 func bindLaws(in []int64, law func(lsel int, lin []int64, sig string)) {
 	law(112, lastLaw, lastSig)
@@ -610,6 +629,9 @@ func bindLaws(in []int64, law func(lsel int, lin []int64, sig string)) {
 	}
 	// the initial cache of the case satisfies cinv, the hypothesis of bind_events_safe
 	law(115, in, "")
+	if lastBatchLaw != nil {
+		law(117, lastBatchLaw, "")
+	}
 }
 
 // ---------- generator ----------
@@ -1122,4 +1144,43 @@ func genBind(rng *vh.Rng, n int, emit func(id string, sel int, in []int64, kind 
 		desc := map[string]any{"nodes": len(b.Nodes), "tasks": len(b.Tasks), "workers": b.Workers, "items": len(b.Items)}
 		emit(fmt.Sprintf("bind-%d", i), 2, b.enc(), kind, nt, desc)
 	}
+	tr := rng.Fork()
+	for i := 0; i < max(4, n/50); i++ {
+		b := readdReleasingCase(tr.Fork())
+		emit(fmt.Sprintf("bind-readd-releasing-%d", i), 2, b.enc(), "bind/cache/readd-releasing", true,
+			map[string]any{"directed": "node holding a terminating pod removed and re-added, then a bind that fits only into the terminating pod's room", "items": len(b.Items)})
+	}
+}
+
+// readdReleasingCase (directed, seeded mutant C02-r8-1): a node that holds a TERMINATING pod (and
+// possibly a running one) is removed and delivered again; the pods of a removed node stay on the
+// placeholder (fix e29cb66) -- terminating ones included: they still run.  A pod that fits only into
+// the terminating pod's room is then aimed at the node (refused: the Binding re-check is against
+// Idle), and a small one that fits anyway.
+func readdReleasingCase(r *vh.Rng) bindCase {
+	var b bindCase
+	cpu := int64(r.Range(3, 6)) * 1000
+	b.Nodes = []sched.NodeSpec{{ID: 1, Has: true, CPU: cpu, Mem: 32 << 20, Pods: 20}}
+	if r.Chance(1, 2) {
+		b.Nodes = append(b.Nodes, sched.NodeSpec{ID: 2, Has: true, CPU: 4000, Mem: 32 << 20, Pods: 20})
+	}
+	p := int64(r.Range(2, int(cpu/500)-2)) * 500 // the terminating pod
+	b.Tasks = []sched.TaskSpec{{ID: 1, Job: 1, Role: 1, CPU: p, Mem: 1 << 20, Status: sched.SReleasing, Node: 1}}
+	q := int64(0)
+	if r.Chance(1, 2) {
+		q = 500
+		b.Tasks = append(b.Tasks, sched.TaskSpec{ID: 5, Job: 1, Role: 1, CPU: q, Mem: 1 << 20, Status: sched.SRunning, Node: 1})
+	}
+	free := cpu - p - q // >= 500
+	b.Tasks = append(b.Tasks, sched.TaskSpec{ID: 2, Job: 1, Role: 1, CPU: free + 500, Mem: 1 << 20, Status: sched.SPending},
+		sched.TaskSpec{ID: 3, Job: 1, Role: 1, CPU: 250, Mem: 1 << 20, Status: sched.SPending})
+	b.Jobs = []sched.JobSpec{{ID: 1, Queue: 1}}
+	b.Workers = int64(r.Range(1, 3))
+	b.Exact = true
+	b.Items = []item{{Kind: itRemoveNode, Task: 1}}
+	if r.Chance(1, 3) {
+		b.Items = append(b.Items, item{Kind: itBind, Bind: [3]int64{1, 3, 1}}) // refused: no Node object
+	}
+	b.Items = append(b.Items, item{Kind: itNode, Node: b.Nodes[0]}, item{Kind: itBind, Bind: [3]int64{1, 2, 1}}, item{Kind: itBind, Bind: [3]int64{1, 3, 1}})
+	return b
 }
